@@ -25,7 +25,9 @@ PROPS = {
         "variant": "default",
         "quick": {"cases": 250000, "opts": ["giants=1"]},
         "thorough": {"cases": 6000000, "opts": ["bigmax=1200000", "giants=3"]},
-        "rule": "rapidcheck cases over key size x {sse, avx_gen2, avx_gen4, vaes_avx512, legacy, isal_} x {regular, nt} x {enc, dec}; key/IV/AAD/data from a "
+        "rule": "per worker the first case(s) are one-shot DECRYPTS of more than 2^32 bytes (family round-robin; periodic read-only ciphertext, aliasing sink as output): "
+                "exact tag (GHASH over the periodic ciphertext evaluated period-wise) and exact last MiB of plaintext. Otherwise "
+                "rapidcheck cases over key size x {sse, avx_gen2, avx_gen4, vaes_avx512, legacy, isal_} x {regular, nt} x {enc, dec}; key/IV/AAD/data from a "
                 "seed; data length mixture (0..1100 dense, 4080..4112, 65520..65552, up to bigmax), AAD length mixture, tag 8/12/16, in place or not, "
                 "every buffer placed against a guard page or shifted to an arbitrary alignment; key data precomputed by the same family. Oracle: "
                 "independent SP 800-38D reference (output and tag), library enc/dec round trip. Non-trivial = len not a multiple of 16, or len > 128, "
@@ -49,7 +51,10 @@ PROPS = {
         "variant": "default",
         "quick": {"cases": 800000, "opts": ["giants=3"]},
         "thorough": {"cases": 3000000, "opts": ["giants=6"]},
-        "rule": "rapidcheck cases over {128,192,256} x entry (keyexp {sse, avx, legacy, isal_}, cbc enc {x4, x8, legacy, isal_}, cbc dec {sse, avx, vaes_avx512, "
+        "rule": "per worker the first cases are CBC calls of 2^32 bytes or more, entry round-robin (exactly 2^32 in the first two rounds, which reach every entry): decrypt "
+                "checked exactly on the last MiB (decryption is local), encrypt held to the chaining relation D(C_j)^C_{j-1}=P_j over the last MiB (a wrong block early in "
+                "the message is not visible to that). Otherwise "
+                "rapidcheck cases over {128,192,256} x entry (keyexp {sse, avx, legacy, isal_}, cbc enc {x4, x8, legacy, isal_}, cbc dec {sse, avx, vaes_avx512, "
                 "legacy, isal_}); keys/IV/data from a seed; N blocks in {1..80 dense, 255..257, 81..1200, 4096}; in place / out of place; IV and schedules "
                 "16-byte aligned as documented, data anywhere. Oracle: reference key schedule compared byte for byte with both arrays the library wrote; "
                 "reference CBC. Non-trivial = key expansion case, or N not a multiple of 8 (16 for vaes), or in-place decrypt with N>8. Distinct = hash of the "
@@ -110,7 +115,9 @@ PROPS = {
         "variant": "default",
         "quick": {"cases": 30000},
         "thorough": {"cases": 1200000, "opts": ["volumes=3"]},
-        "rule": "rapidcheck stateful histories as C01 plus rejected submits (8%) and flushes at any point, all families, followed by a drain phase. Model-based "
+        "rule": "(thorough tier: per worker the first cases are a long-lived manager - one context, flush-driven, 5 segments of ~4 GiB, families round-robin, "
+                "conservation only.) "
+                "rapidcheck stateful histories as C01 plus rejected submits (8%) and flushes at any point, all families, followed by a drain phase. Model-based "
                 "invariants after every call: a returned context is one the model says the manager holds (never returned twice), it is not marked processing, its "
                 "status is COMPLETE iff its last accepted segment had LAST else IDLE, held contexts <= documented lanes (synchronous families hold none), flush "
                 "returns NULL iff nothing is held, <= |held| flushes drain, user_data / read-only caller buffers / every context not involved in the call are "
@@ -156,10 +163,12 @@ PROPS = {
         "rule": "FIPS_MODE build; rapidcheck cases over the catalog of all isal_ entry points (cross-checked against nm: unknown ones are reported as uncovered) x "
                 "self-test state {failed, passed, not yet run + injected failing self test, not yet run + passing self test, running on another thread which then publishes "
                 "fail, ... then publishes pass (the call is made on a second real thread and has to wait)} x otherwise valid random arguments; XTS "
-                "additionally with key1 == key2 (same pointer / equal copy, raw and pre-expanded). The (entry x state) grid is covered completely by sampling "
+                "additionally with key1 == key2 (same pointer / equal copy, raw and pre-expanded) and with a second key that is a copy of the first with ONE flipped byte "
+                "(must be accepted). An injected failure names the failing group and uses the value that group really returns (AES 1, SHA -1). The (entry x state) grid is covered completely by sampling "
                 "(>=200 argument draws per pair in the quick tier). Oracle: approved entry in a failing state returns ISAL_CRYPTO_ERR_SELF_TEST and every "
                 "output/object byte equals its prefill; in a not-yet-run state the (link-time wrapped) self tests are entered exactly once and before any output byte "
-                "changed and the verdict is published; passed state returns 0; non-approved entries always return FIPS_INVALID_ALGO with outputs untouched; XTS with "
+                "changed, and the verdict sticks (the injected failure is removed, a later isal_self_tests() must report the same verdict without running the tests "
+                "again); passed state returns 0; non-approved entries always return FIPS_INVALID_ALGO with outputs untouched; XTS with "
                 "identical keys is refused with outputs untouched. Non-trivial = state != passed; distinct = (entry, state, key-equality mode, length class).",
         "assumptions": COMMON_ASSUME + ["objects needed by a valid call (manager, key data, GCM context) are prepared through the internal un-gated entry points",
                                         "for the decrypt expanded-key XTS entry points equal raw keys cannot be recognised from the (different) schedules; the statement "
@@ -238,7 +247,11 @@ PROPS = {
         "quick": {"cases": 192, "opts": ["p32=10", "full32=1"], "budget_s": 1200},
         "thorough": {"cases": 480, "opts": ["p32=50", "full32=1"], "budget_s": 6000},
         "rule": "rapidcheck cases over algorithm x family: every worker owns a contiguous slice of the algorithm-sorted family list (28 ctx families + legacy + "
-                "isal_) and takes its families round-robin, so EVERY family is exercised in every run (3 cases per worker in the quick tier); 1..3 contexts of one "
+                "isal_) and takes its families round-robin, so EVERY family is exercised in every run, each with four shapes in turn: (0) one job across 2^32 as described "
+                "next; (1) twins: 2..3 jobs that each have 2^30 bytes or more outstanding at the same time; (2) crowd: a full manager of short jobs with distinct block "
+                "counts plus one segment of 2^31..2^32-1 bytes, the shortest job two times in three at a power-of-two lane distance from it; (3) placement sweep: "
+                "that crowd for every giant lane x shortest job at every power-of-two lane distance, each round stopped when the short jobs are done (their digests "
+                "are judged). Shape 0: 1..3 contexts of one "
                 "manager are each fed a periodic stream (1 MiB block mapped back to back via memfd, so single segments up to 2^32-1 bytes exist); the first context of "
                 "every case crosses 2^32 or 2^32+2^29, the others 2^29 (or 2^32 with p32 percent); total = threshold + residue from {0, 1, B-9, B-8, B-1, B, B+1, 17, "
                 "3B+5} (+ optional 0..5000); segmentation = large segments (< 2^32 each) up to shortly before the threshold, then 1..5 small segments that walk across "
@@ -274,7 +287,7 @@ PROPS = {
         "technique": "property-based testing of schedules: deterministic instruction-level scheduler (x86 trap flag, logical threads as contexts in one OS thread), "
                      "rapidcheck-generated and shrinkable schedules, plus generated rounds of simultaneous first calls by real threads; history invariants as oracle",
         "rule": "FIPS_MODE build. rapidcheck cases: 1..5 logical threads, each making its first call through isal_self_tests() or through a cheap approved entry "
-                "(isal_sha1_ctx_mgr_init) and then a second isal_self_tests(); self-test outcome in {pass, fail}; the link-time wrappers of the two self-test groups run the real body (one atomic "
+                "(isal_sha1_ctx_mgr_init) and then a second isal_self_tests(); self-test outcome in {pass, AES group fails (1), SHA group fails (-1), both}; the link-time wrappers of the two self-test groups run the real body (one atomic "
                 "step), then spin 0..40 yield points and overlay the generated outcome; schedule = either a byte string of (thread, burst length) decisions followed by a fair round-robin tail, or a run-to-yield schedule "
                 "with 0..4 generated preemption points. Every instruction of the real check/claim/run/publish code is single-stepped and the generated schedule "
                 "decides which logical thread executes the next instruction. Oracle (history invariants): the AES and SHA self tests are entered exactly once; no "
